@@ -266,6 +266,74 @@ def check_entry(rep, prog, m, fn, worlds):
                        rel, fn.lineno, what='%s is not dropped' % b)
 
 
+
+def check_bound_shapes(rep, prog, m, fn, worlds):
+    """vectors come in two lengths: `full` (one entry per model parameter: p0, lower_bound, upper_bound as given) and
+    `contracted` (_project_params_down removed the fixed entries).  The objective expands its argument and compares the FULL
+    vector with the bounds it is handed, so whatever reaches its lower_bound / upper_bound slots must be full length."""
+    of = prog.func(INF, '_object_func')
+    slots = positional_params(of)[1:]
+    for world in worlds:
+        closure = {}
+        snaps = {}
+
+        def rule(an, e, args, kws, s):
+            f = dotted(e.func) or ''
+            last = f.split('.')[-1]
+            if last == '_project_params_down':
+                return 'contracted'
+            if last == '_project_params_up':
+                return 'full'
+            if last in ('log', 'exp', 'array', 'asarray', 'list', 'tuple', 'copy'):
+                return args[0] if args else None
+            return None
+
+        def obs(node, tag_of, state):
+            closure[node.name] = state
+        an, exits = run_tags(fn, seeds={'p0': 'full', 'lower_bound': 'full', 'upper_bound': 'full'}, world=world, call_rule=rule, observe=obs)
+        found = []
+        # (a) direct calls (own body and nested objective wrappers)
+        def calls_in(f_, state_of):
+            for c in ast.walk(f_):
+                if isinstance(c, ast.Call) and (dotted(c.func) or '').split('.')[-1].startswith('_object_func'):
+                    for k in c.keywords:
+                        if k.arg in ('lower_bound', 'upper_bound'):
+                            found.append((c, k.arg, state_of(k.value)))
+        for (e, args, kws, s) in an.calls:
+            if (dotted(e.func) or '').split('.')[-1].startswith('_object_func'):
+                for k in ('lower_bound', 'upper_bound'):
+                    if k in kws:
+                        found.append((e, k, kws[k]))
+        for name, st in closure.items():
+            nested = [n for n in fn.body if isinstance(n, ast.FunctionDef) and n.name == name]
+            if nested:
+                local = {x.id for x in ast.walk(nested[0]) if isinstance(x, ast.Name) and isinstance(x.ctx, ast.Store)}
+                calls_in(nested[0], lambda v, st=st, local=local: (st.get(v.id) if isinstance(v, ast.Name) and v.id not in local else None))
+        # (b) the args tuple handed to the scipy drivers: positions follow _object_func's parameters after `params`
+        for (e, args, kws, s) in []:
+            pass
+        tup = [n for n in own_nodes(fn) if isinstance(n, ast.Assign) and ast.unparse(n.targets[0]) == 'args' and isinstance(n.value, ast.Tuple)]
+        for t in tup:
+            # state at this statement: re-evaluate the names with a small forward scan (names are not rebound between the
+            # beginning of the function and the tuple except by the projection statements, which come later in every driver)
+            pre = {}
+            for st in fn.body:
+                if st is t or getattr(st, 'lineno', 0) >= t.lineno:
+                    break
+                if isinstance(st, ast.Assign) and isinstance(st.targets[0], ast.Name) and isinstance(st.value, ast.Call) and \
+                        (dotted(st.value.func) or '').split('.')[-1] == '_project_params_down':
+                    pre[st.targets[0].id] = 'contracted'
+            names = slots if 'target_resid' not in ast.unparse(t.value) else positional_params(prog.func(INF, '_object_func_resid'))[1:]
+            for slot, el in zip(names, t.value.elts):
+                if slot in ('lower_bound', 'upper_bound'):
+                    tag = pre.get(el.id, 'full') if isinstance(el, ast.Name) else None
+                    found.append((t, slot, tag))
+        for node, slot, tag in found:
+            rep.ob('R-SHAPE', '%s[%s] objective %s' % (fn.name, ','.join('%s=%s' % kv for kv in sorted(world.items())) or '-', slot), tag in ('full', None),
+                   'value of %s handed to the objective is %s' % (slot, tag or 'not a tracked vector (None / constant)'), m.rel, node.lineno,
+                   what='bounds compared inside the objective have one entry per model parameter (not the vector contracted around fixed_params)')
+
+
 def check_args_tuple(rep, prog, m, fn):
     """R-ARGS: args tuple vs positional parameters of the base objective"""
     q = fn._qualname
@@ -498,6 +566,70 @@ def clamp_level_inside(level, kind):
     return None, 'clamp level %s has a form the rule does not recognise' % ast.unparse(level)
 
 
+
+def ext_eval(e, env):
+    """evaluation over the extended reals {'-inf', 'fin', '+inf', 'nan'} with signs, for `None -> +-inf` bounds:
+    values are ('inf', sign) / ('fin', sign or 0) / 'nan'"""
+    if isinstance(e, ast.Constant) and isinstance(e.value, (int, float)):
+        return ('fin', (e.value > 0) - (e.value < 0))
+    if isinstance(e, ast.Name):
+        if e.id in env:
+            return env[e.id]
+        raise AlgebraError('unknown name %s' % e.id)
+    if isinstance(e, ast.UnaryOp) and isinstance(e.op, ast.USub):
+        v = ext_eval(e.operand, env)
+        return v if v == 'nan' else (v[0], -v[1])
+    if isinstance(e, ast.BinOp):
+        a, b = ext_eval(e.left, env), ext_eval(e.right, env)
+        if a == 'nan' or b == 'nan':
+            return 'nan'
+        if isinstance(e.op, (ast.Add, ast.Sub)):
+            if isinstance(e.op, ast.Sub):
+                b = (b[0], -b[1])
+            if a[0] == 'inf' and b[0] == 'inf':
+                return a if a[1] == b[1] else 'nan'
+            if a[0] == 'inf':
+                return a
+            if b[0] == 'inf':
+                return b
+            return ('fin', a[1] if a[1] == b[1] else 0) if a[1] == b[1] else ('fin', None)
+        if isinstance(e.op, ast.Mult):
+            if 'inf' in (a[0], b[0]):
+                if a[1] == 0 or b[1] == 0:
+                    return 'nan'
+                if a[1] is None or b[1] is None:
+                    raise AlgebraError('sign of a factor unknown')
+                return ('inf', a[1] * b[1])
+            return ('fin', None if None in (a[1], b[1]) else a[1] * b[1])
+        if isinstance(e.op, ast.Div):
+            if b[0] == 'inf':
+                return 'nan' if a[0] == 'inf' else ('fin', 0)
+            if a[0] == 'inf':
+                if b[1] in (0, None):
+                    raise AlgebraError('sign of a divisor unknown')
+                return ('inf', a[1] * b[1])
+            return ('fin', None)
+        raise AlgebraError('operator')
+    if isinstance(e, ast.Call):
+        last = _last(dotted(e.func))
+        if last in ('abs', 'absolute', 'fabs') and len(e.args) == 1:
+            v = ext_eval(e.args[0], env)
+            return v if v == 'nan' else (v[0], abs(v[1]) if v[1] is not None else None)
+        if last in ('asarray', 'array', 'float64', 'float') and e.args:
+            return ext_eval(e.args[0], env)
+        if last == 'where' and len(e.args) == 3:
+            c = e.args[0]
+            if isinstance(c, ast.Compare) and len(c.ops) == 1 and isinstance(c.comparators[0], ast.Constant) and c.comparators[0].value == 0:
+                v = ext_eval(c.left, env)
+                if v == 'nan' or v[1] is None:
+                    raise AlgebraError('condition undecided')
+                truth = {ast.Gt: v[1] > 0, ast.GtE: v[1] >= 0, ast.Lt: v[1] < 0, ast.LtE: v[1] <= 0}[type(c.ops[0])]
+                return ext_eval(e.args[1] if truth else e.args[2], env)
+            raise AlgebraError('where condition')
+        raise AlgebraError('call %s' % last)
+    raise AlgebraError('expression')
+
+
 def check_perturb(rep, prog):
     m = prog.mod('dadi.Misc')
     fn = prog.func('dadi.Misc', 'perturb_params')
@@ -525,6 +657,16 @@ def check_perturb(rep, prog):
                 raise AnalysisError('perturb_params: ' + why)
             rep.ob('R-SIGN', 'perturb_params %s clamp' % bname, verdict, why, m.rel, n.lineno,
                    what='clamp level is inside the bounds for either sign of the bound')
+            # an absent bound is replaced by -inf / +inf: the clamp level must then be that infinity (no effect), not inf - inf
+            bvar = [x for x in names_in(lvl0) if x in ('lb', 'ub', bname)]
+            try:
+                v = ext_eval(lvl0, {bv: ('inf', -1 if kind == 'lower' else 1) for bv in bvar})
+                oki = v == ('inf', -1 if kind == 'lower' else 1)
+                det = 'level at an absent bound evaluates to %s' % (v,)
+            except AlgebraError as e_:
+                oki, det = False, 'level not evaluable at an infinite bound: %s' % e_
+            rep.ob('R-DOM', 'perturb_params %s clamp at an absent bound' % bname, oki, det, m.rel, n.lineno,
+                   what='None / infinite bounds leave the perturbed value unchanged (the level is the same infinity, never nan)')
 
 
 def run(rep, prog, tier):
@@ -541,11 +683,13 @@ def run(rep, prog, tier):
         generic.rule_extsig(rep, m, fn)          # keywords exist in the installed scipy (read from /venv, not imported)
         check_entry(rep, prog, m, fn, [{}])
         check_args_tuple(rep, prog, m, fn)
+        check_bound_shapes(rep, prog, m, fn, [{}])
     optf = prog.func('dadi.NLopt_mod', 'opt')
     generic.rule_name(rep, prog, nm, optf)
     generic.rule_def(rep, nm, optf)
     generic.rule_sig(rep, prog, nm, optf)
     check_entry(rep, prog, nm, optf, [{'log_opt': False}, {'log_opt': True}])
+    check_bound_shapes(rep, prog, nm, optf, [{'log_opt': False}, {'log_opt': True}])
     # nested objective of opt: passes a natural-space vector to _object_func in both worlds
     f = prog.func('dadi.NLopt_mod', 'opt.f')
     generic.rule_sig(rep, prog, nm, f)
